@@ -21,6 +21,18 @@ def on_call(interp, name, f, args, kwargs):
     if isinstance(rx, K) and isinstance(rx.v, str):
         flags = args[2].v if len(args) > 2 and isinstance(args[2], K) else 0
         rx = RegexV(rx.v, flags)
+    if isinstance(rx, T) and name in ('re.match', 're.search',
+                                      're.fullmatch') and len(args) >= 2:
+        # a pattern that is itself data: matched or not is one fork, the
+        # pattern may also fail to compile
+        subject = interp.termify(args[1])
+        cond = T('rxdyn', MODES[name], rx, subject)
+        interp.effect('call', name, (rx, subject))
+        interp.call_raises.setdefault(name, ['re.error'])
+        interp.may_raise(name, cond)
+        if not interp.truth(cond):
+            return K(None)
+        return Obj(None, {'__truth__': True}, label='match')
     if not isinstance(rx, RegexV):
         return NotImplemented
     subject = interp.termify(args[1])
@@ -72,10 +84,20 @@ def install(interp, chain=None):
     interp.group_optional = True
 
 
-def hook(v, val):
+def hook(v, val, hooks=None):
+    hooks = hooks or [hook]
+    if isinstance(v, T) and v.op == 'rxdyn':
+        p = ev(v.args[1], val, hooks)
+        s = ev(v.args[2], val, hooks)
+        try:
+            return getattr(re, v.args[0])(p, s) is not None
+        except re.error:
+            raise Raised('re.error')
+        except TypeError:
+            raise Raised('TypeError')
     if isinstance(v, T) and v.op in ('rxmatch', 'group'):
         rt, mode, subject = v.args[0], v.args[1], v.args[2]
-        s = ev(subject, val, [hook])
+        s = ev(subject, val, hooks)
         try:
             m = getattr(re.compile(rt.args[0], rt.args[1]), mode)(s)
         except TypeError:
